@@ -46,7 +46,9 @@ CountGroups(p, i) ==
     IF i > Len(p) THEN 0
     ELSE (IF Ch(p, i) = "(" /\ ~(i < Len(p) /\ Ch(p, i + 1) = "?") THEN 1 ELSE 0) + CountGroups(p, i + 1)
 
-Atoms == {"a", "b", ".", "[ab]", "(a)", "(a|b)", "(b)(a)", "a*", "(ab)+", "^a", "b$", "a?", "((a)b)", "(?:a)b", "x"}
+\* a|ab, a+?, (a|ab)(b|) : leftmost-first and leftmost-longest matching differ
+Atoms == {"a", "b", ".", "[ab]", "(a)", "(a|b)", "(b)(a)", "a*", "(ab)+", "^a", "b$", "a?", "((a)b)", "(?:a)b", "x",
+          "a|ab", "a+?", "(a|ab)(b|)"}
 Invalid == {"(", "[a", "a**", "(a", "a)", "*a"}
 Patterns == Atoms \cup {x \o y : x \in Atoms, y \in {"b", "(a)", "a*", "(a|b)"}}
 Subjects == {"", "a", "b", "ab", "aab", "abab", "xay"}
